@@ -267,7 +267,11 @@ func main() {
 		}
 	}
 	for rel, src := range sp.Add {
-		replace[filepath.Join(*repo, rel)] = filepath.Join(*root, src)
+		if filepath.IsAbs(src) {
+			replace[filepath.Join(*repo, rel)] = src
+		} else {
+			replace[filepath.Join(*repo, rel)] = filepath.Join(*root, src)
+		}
 	}
 	b, _ := json.MarshalIndent(map[string]any{"Replace": replace}, "", " ")
 	of := filepath.Join(*out, "overlay.json")
